@@ -5,6 +5,7 @@ import (
 	"go/constant"
 	"go/token"
 	"go/types"
+	"sort"
 	"strings"
 
 	"golang.org/x/tools/go/ssa"
@@ -205,7 +206,7 @@ func checkCodeVisitor(c *core.Ctx, name string, g codeGetter, v ssa.Value) {
 
 var rStdIdentity = &Rule{
 	Name: "R-STD-IDENTITY",
-	Doc: "who-may-call: hand-written library code never applies the standard library's errors.Is / errors.As / errors.Unwrap to an error. Those compare by pointer identity and follow Unwrap() only; the library's contract (equivalence by network mark, traversal through Cause()-only layers, multi-cause awareness) is implemented by markers.Is/IsAny/As and errbase.UnwrapOnce/UnwrapMulti, and every internal consumer goes through them",
+	Doc:  "who-may-call: hand-written library code never applies the standard library's errors.Is / errors.As / errors.Unwrap to an error. Those compare by pointer identity and follow Unwrap() only; the library's contract (equivalence by network mark, traversal through Cause()-only layers, multi-cause awareness) is implemented by markers.Is/IsAny/As and errbase.UnwrapOnce/UnwrapMulti, and every internal consumer goes through them",
 	Run: func(c *core.Ctx) {
 		n := 0
 		for _, fn := range c.P.HandFuncs() {
@@ -238,7 +239,7 @@ var rStdIdentity = &Rule{
 
 var rLoopAlias = &Rule{
 	Name: "R-LOOP-ALIAS",
-	Doc: "no collection of per-iteration results aliases one variable: inside a loop, the address of a variable that is allocated outside the loop and re-assigned inside it is never stored into a slice/array element, a map, a field, or passed to append. (Every element would point to the value of the last iteration: e.g. every encoded branch of a multi-cause error would be the last branch.)",
+	Doc:  "no collection of per-iteration results aliases one variable: inside a loop, the address of a variable that is allocated outside the loop and re-assigned inside it is never stored into a slice/array element, a map, a field, or passed to append. (Every element would point to the value of the last iteration: e.g. every encoded branch of a multi-cause error would be the last branch.)",
 	Run: func(c *core.Ctx) {
 		nLoops, nStores := 0, 0
 		for _, fn := range c.P.HandFuncs() {
@@ -329,7 +330,7 @@ func isVarargsOfNonAppend(ia *ssa.IndexAddr) bool {
 
 var rUnmarshalOK = &Rule{
 	Name: "R-UNMARSHAL-OK",
-	Doc: "a payload that failed to unmarshal is never handed to a decoder: every read of the DynamicAny filled by types.UnmarshalAny is dominated by the err == nil edge of that very call. (UnmarshalAny allocates the message of the registered type before parsing the bytes, so on failure the message is non-nil, of the expected type, and half-read: decoders would accept it and dereference unset members instead of falling back to the opaque type.)",
+	Doc:  "a payload that failed to unmarshal is never handed to a decoder: every read of the DynamicAny filled by types.UnmarshalAny is dominated by the err == nil edge of that very call. (UnmarshalAny allocates the message of the registered type before parsing the bytes, so on failure the message is non-nil, of the expected type, and half-read: decoders would accept it and dereference unset members instead of falling back to the opaque type.)",
 	Run: func(c *core.Ctx) {
 		n := 0
 		for _, fn := range c.P.HandFuncs() {
@@ -406,7 +407,7 @@ var rUnmarshalOK = &Rule{
 
 var rSecondaryAttach = &Rule{
 	Name: "R-SECONDARY-ATTACH",
-	Doc: "a secondary error is always attached: under the assumption that both arguments are non-nil (nilness interpreter, infeasible paths pruned), every return of secondary.WithSecondaryError is a freshly allocated *withSecondaryError whose cause and secondaryError fields are the two parameters themselves, and every return of secondary.CombineErrors is the result of WithSecondaryError(err, otherErr) applied to its own two parameters - no path decides from the errors' contents (equivalence, text, type) to drop the secondary error",
+	Doc:  "a secondary error is always attached: under the assumption that both arguments are non-nil (nilness interpreter, infeasible paths pruned), every return of secondary.WithSecondaryError is a freshly allocated *withSecondaryError whose cause and secondaryError fields are the two parameters themselves, and every return of secondary.CombineErrors is the result of WithSecondaryError(err, otherErr) applied to its own two parameters - no path decides from the errors' contents (equivalence, text, type) to drop the secondary error",
 	Run: func(c *core.Ctx) {
 		p := c.P
 		ev := nilEval(c)
@@ -696,7 +697,7 @@ func derivesFrom(v ssa.Value, p *ssa.Parameter, d int) bool {
 
 var rWalkCurrent = &Rule{
 	Name: "R-WALK-CURRENT",
-	Doc: "a chain walk looks at the current layer: in every loop whose induction variable c starts at an error value e0 and advances with errbase.UnwrapOnce(c) (or Unwrap/Cause of c), no instruction inside the loop body uses e0 itself (the root of the walk) as an operand - every per-layer computation (mark, type assertion, method probe, comparison) takes c. Using the root inside the body repeats the outermost layer's answer at every depth, so matches under a wrapper are lost",
+	Doc:  "a chain walk looks at the current layer: in every loop whose induction variable c starts at an error value e0 and advances with errbase.UnwrapOnce(c) (or Unwrap/Cause of c), no instruction inside the loop body uses e0 itself (the root of the walk) as an operand - every per-layer computation (mark, type assertion, method probe, comparison) takes c. Using the root inside the body repeats the outermost layer's answer at every depth, so matches under a wrapper are lost",
 	Run: func(c *core.Ctx) {
 		n := 0
 		for _, fn := range c.P.HandFuncs() {
@@ -929,4 +930,603 @@ func reachesReturn(in ssa.Instruction) bool {
 		return false
 	}
 	return walk(v, 0)
+}
+
+// ---------------------------------------------------------------------------
+// R-UNWRAPALL
+
+var rUnwrapAll = &Rule{
+	Name: "R-UNWRAPALL",
+	Doc:  "errbase.UnwrapAll (and so errors.Cause) is pkg/errors' Cause: its loop advances c = UnwrapOnce(c), every edge that leaves the loop is decided by the nil test of UnwrapOnce(c) for the current c and by nothing else, and the value returned is the current c - the last error for which UnwrapOnce is nil. Any additional stop condition (the next cause being a multi-error, a type, a depth) returns a wrapper where pkg/errors returns the root",
+	Run: func(c *core.Ctx) {
+		fn := c.P.Func("errbase", "UnwrapAll")
+		if fn == nil {
+			c.InternalErr("errbase.UnwrapAll", "anchor not found")
+			return
+		}
+		loops := naturalLoops(fn)
+		if len(loops) != 1 {
+			c.Undecided("errbase.UnwrapAll", fn.Pos(), fmt.Sprintf("expected one loop, found %d (recursive or unrolled form not recognised)", len(loops)))
+			return
+		}
+		l := loops[0]
+		// induction variable
+		var cur *ssa.Phi
+		for _, in := range l.Header.Instrs {
+			if ph, ok := in.(*ssa.Phi); ok && sx.IsErrorType(ph.Type()) {
+				cur = ph
+			}
+		}
+		if cur == nil {
+			c.Undecided("errbase.UnwrapAll", fn.Pos(), "no error-typed induction variable in the loop header")
+			return
+		}
+		isStep := func(v ssa.Value) bool {
+			call, ok := v.(*ssa.Call)
+			return ok && sx.Callee(call) != nil && sx.Callee(call).Name() == "UnwrapOnce" && len(call.Call.Args) == 1 && call.Call.Args[0] == ssa.Value(cur)
+		}
+		okStep := true
+		for i, e := range cur.Edges {
+			if l.Body[l.Header.Preds[i]] {
+				if !isStep(e) {
+					okStep = false
+				}
+			} else if e != ssa.Value(fn.Params[0]) {
+				okStep = false
+			}
+		}
+		c.Check(okStep, "errbase.UnwrapAll: induction", cur.Pos(), "c starts at err and advances with UnwrapOnce(c)", "the walk does not start at the argument or does not advance with UnwrapOnce of the current error")
+		for _, e := range l.exitEdges() {
+			from := e[0]
+			ifi, ok := from.Instrs[len(from.Instrs)-1].(*ssa.If)
+			good := false
+			if ok {
+				if bin, isBin := ifi.Cond.(*ssa.BinOp); isBin && (bin.Op == token.EQL || bin.Op == token.NEQ) {
+					good = (isStep(bin.X) && sx.IsNil(bin.Y)) || (isStep(bin.Y) && sx.IsNil(bin.X))
+				}
+			}
+			c.Check(good, "errbase.UnwrapAll: loop exit", lastPos(from), "decided by UnwrapOnce(c) == nil alone", "the loop can be left on a condition other than UnwrapOnce(c) == nil: the result is not the root cause that pkg/errors.Cause returns")
+		}
+		for _, ret := range sx.Returns(fn) {
+			c.Check(ret.Results[0] == ssa.Value(cur), "errbase.UnwrapAll: result", ret.Pos(), "the current error of the walk", "the function returns something other than the error the walk stopped at")
+		}
+	},
+}
+
+// ---------------------------------------------------------------------------
+// R-REVERSE
+
+// linForm is a linear form over SSA values (phis, len(x)) and the constant 1 (key nil).
+type linForm map[ssa.Value]int64
+
+func (a linForm) add(b linForm, k int64) linForm {
+	out := linForm{}
+	for v, c := range a {
+		out[v] += c
+	}
+	for v, c := range b {
+		out[v] += k * c
+	}
+	for v, c := range out {
+		if c == 0 {
+			delete(out, v)
+		}
+	}
+	return out
+}
+
+func (a linForm) String() string {
+	var parts []string
+	for v, c := range a {
+		n := "1"
+		if v != nil {
+			n = describeVal(v)
+		}
+		parts = append(parts, fmt.Sprintf("%d*%s", c, n))
+	}
+	sort.Strings(parts)
+	if len(parts) == 0 {
+		return "0"
+	}
+	return strings.Join(parts, " + ")
+}
+
+// affineOf evaluates v as a linear form; atoms are phis and len() calls. ok=false when v is not linear.
+func linOf(v ssa.Value, d int) (linForm, bool) {
+	if d > 10 {
+		return nil, false
+	}
+	switch x := v.(type) {
+	case *ssa.Const:
+		if k, ok := sx.ConstInt(x); ok {
+			if k == 0 {
+				return linForm{}, true
+			}
+			return linForm{nil: k}, true
+		}
+	case *ssa.Phi:
+		return linForm{x: 1}, true
+	case *ssa.Call:
+		if b, ok := x.Call.Value.(*ssa.Builtin); ok && b.Name() == "len" {
+			return linForm{lenKey(x): 1}, true
+		}
+	case *ssa.BinOp:
+		a, ok1 := linOf(x.X, d+1)
+		b, ok2 := linOf(x.Y, d+1)
+		if !ok1 || !ok2 {
+			return nil, false
+		}
+		switch x.Op {
+		case token.ADD:
+			return a.add(b, 1), true
+		case token.SUB:
+			return a.add(b, -1), true
+		}
+	case *ssa.Convert:
+		return linOf(x.X, d+1)
+	}
+	return nil, false
+}
+
+// lenKey canonicalises len(x) calls of the same x to one atom.
+var lenAtoms = map[ssa.Value]ssa.Value{}
+
+func lenKey(call *ssa.Call) ssa.Value {
+	arg := call.Call.Args[0]
+	if k, ok := lenAtoms[arg]; ok {
+		return k
+	}
+	lenAtoms[arg] = call
+	return call
+}
+
+var rReverse = &Rule{
+	Name: "R-REVERSE",
+	Doc:  "report.reverseExceptionOrder reverses: its loop swaps ex[a] and ex[b] where a + b = len(ex) - 1 is an invariant (affine evaluation of both indices over the loop's induction variables: either b is written as len-1-a, or a and b are two induction variables whose initial values sum to len-1 and whose steps cancel), and it runs while a < len/2 or a < b. A loop that forgets to move one index swaps every element with the same slot, which leaves lists of up to two exceptions correct and permutes longer ones",
+	Run: func(c *core.Ctx) {
+		fn := c.P.Func("report", "reverseExceptionOrder")
+		if fn == nil {
+			c.InternalErr("report.reverseExceptionOrder", "anchor not found")
+			return
+		}
+		name := "report.reverseExceptionOrder"
+		loops := naturalLoops(fn)
+		if len(loops) != 1 {
+			c.Undecided(name, fn.Pos(), fmt.Sprintf("expected one loop, found %d", len(loops)))
+			return
+		}
+		l := loops[0]
+		// the swap: two stores into elements of the parameter, each storing the load of the other element
+		type st struct {
+			idx ssa.Value
+			src ssa.Value
+		}
+		var swaps []st
+		for b := range l.Body {
+			for _, in := range b.Instrs {
+				s, ok := in.(*ssa.Store)
+				if !ok {
+					continue
+				}
+				ia, ok := s.Addr.(*ssa.IndexAddr)
+				if !ok || ia.X != ssa.Value(fn.Params[0]) {
+					continue
+				}
+				var from ssa.Value
+				if ld, ok := s.Val.(*ssa.UnOp); ok && ld.Op == token.MUL {
+					if ia2, ok := ld.X.(*ssa.IndexAddr); ok && ia2.X == ssa.Value(fn.Params[0]) {
+						from = ia2.Index
+					}
+				}
+				swaps = append(swaps, st{ia.Index, from})
+			}
+		}
+		if len(swaps) != 2 || swaps[0].src == nil || swaps[1].src == nil {
+			c.Undecided(name, fn.Pos(), "the loop body is not a two-element swap of the argument's elements")
+			return
+		}
+		ia, ok1 := linOf(swaps[0].idx, 0)
+		ib, ok2 := linOf(swaps[1].idx, 0)
+		sa, ok3 := linOf(swaps[0].src, 0)
+		sb, ok4 := linOf(swaps[1].src, 0)
+		if !(ok1 && ok2 && ok3 && ok4) {
+			c.Undecided(name, fn.Pos(), "swap indices are not linear in the induction variables")
+			return
+		}
+		cross := ia.add(sb, -1).String() == "0" && ib.add(sa, -1).String() == "0"
+		c.Check(cross, name+": swap", fn.Pos(), "ex[a] receives ex[b] and ex[b] receives ex[a]", "the two stores do not exchange the two elements")
+		// invariant a + b = len - 1
+		sum := ia.add(ib, 1)
+		var lenAtom ssa.Value
+		for v := range sum {
+			if call, ok := v.(*ssa.Call); ok {
+				lenAtom = call
+				_ = call
+			}
+		}
+		// substitute induction variables: check by induction
+		holds := true
+		why := ""
+		initSum, stepDelta := linForm{}, linForm{}
+		for v, coef := range sum {
+			ph, isPhi := v.(*ssa.Phi)
+			if !isPhi {
+				initSum = initSum.add(linForm{v: 1}, coef)
+				continue
+			}
+			for i, e := range ph.Edges {
+				ea, ok := linOf(e, 0)
+				if !ok {
+					holds, why = false, "an induction variable is not updated linearly"
+					continue
+				}
+				if l.Body[ph.Block().Preds[i]] {
+					stepDelta = stepDelta.add(ea.add(linForm{ph: 1}, -1), coef)
+				} else {
+					initSum = initSum.add(ea, coef)
+				}
+			}
+		}
+		want := linForm{}
+		if lenAtom != nil {
+			want = linForm{lenAtom: 1, nil: -1}
+		} else {
+			// len may only appear in the initial value of an induction variable
+			for v := range initSum {
+				if call, ok := v.(*ssa.Call); ok {
+					want = linForm{call: 1, nil: -1}
+				}
+			}
+		}
+		if holds && initSum.add(want, -1).String() != "0" {
+			holds, why = false, "initially a + b = "+initSum.String()+", not len(ex) - 1"
+		}
+		if holds && stepDelta.String() != "0" {
+			holds, why = false, "one iteration changes a + b by "+stepDelta.String()+" (an index is not moved, or moved the wrong way)"
+		}
+		c.Check(holds, name+": invariant a + b = len(ex) - 1", fn.Pos(), "holds initially and is preserved by every iteration ("+sum.String()+")",
+			"the swapped positions are not mirror images of each other: "+why+" - lists of three or more exceptions are permuted instead of reversed, so the innermost stack is no longer last and frames are attributed to the wrong layer")
+		// bound: header condition a < len/2 or a < b
+		okBound := false
+		if ifi, ok := l.Header.Instrs[len(l.Header.Instrs)-1].(*ssa.If); ok {
+			if bin, ok := ifi.Cond.(*ssa.BinOp); ok && bin.Op == token.LSS {
+				la, okA := linOf(bin.X, 0)
+				if okA && (la.add(ia, -1).String() == "0" || la.add(ib, -1).String() == "0") {
+					if q, ok := bin.Y.(*ssa.BinOp); ok && q.Op == token.QUO {
+						if k, ok := sx.ConstInt(q.Y); ok && k == 2 {
+							if _, ok := linOf(q.X, 0); ok {
+								okBound = true
+							}
+						}
+					} else if ra, ok := linOf(bin.Y, 0); ok && (ra.add(ia, -1).String() == "0" || ra.add(ib, -1).String() == "0") {
+						okBound = true
+					}
+				}
+			}
+		}
+		c.Check(okBound, name+": bound", fn.Pos(), "runs while a < len(ex)/2 or a < b", "the loop bound is not one of the two forms that cover exactly the first half")
+	},
+}
+
+// ---------------------------------------------------------------------------
+// R-STACK-EMPTY
+
+var rStackEmpty = &Rule{
+	Name: "R-STACK-EMPTY",
+	Doc: "an empty printed stack is no stack: every caller of withstack.parsePrintedStackEntry (the parsers of the printed-stack wire slot and of locally printed traces) reaches that call only on a path where the text being parsed was tested non-empty (a dominating `s != \"\"` / `len(s) > 0` on the string that is split, or a len(st) > 0 test of the StackTrace that is printed). " +
+		"strings.Split never returns an empty list, so without that test the empty text - which is exactly what a layer with zero captured frames sends - becomes one all-empty frame and the source location \".:0\", different from what the same error reports before the hop",
+	Run: func(c *core.Ctx) {
+		p := c.P
+		entry := p.Func("withstack", "parsePrintedStackEntry")
+		if entry == nil {
+			c.InternalErr("withstack.parsePrintedStackEntry", "anchor not found")
+			return
+		}
+		n := 0
+		for _, fn := range p.HandFuncs() {
+			sx.EachInstr(fn, func(in ssa.Instruction) {
+				call, ok := in.(*ssa.Call)
+				if !ok || sx.Callee(call) != entry {
+					return
+				}
+				n++
+				// the string that was split into the lines argument
+				var text ssa.Value
+				if sp, ok := call.Call.Args[0].(*ssa.Call); ok {
+					if f := sx.Callee(sp); f != nil && strings.HasPrefix(f.Name(), "Split") && len(sp.Call.Args) >= 1 {
+						text = sp.Call.Args[0]
+					}
+				}
+				construct := load.FnName(fn) + ": parse of a printed stack"
+				if text == nil {
+					c.Undecided(construct, call.Pos(), "the lines argument is not the direct result of strings.Split*")
+					return
+				}
+				ok = false
+				for _, l := range dominatingLits(call.Block()) {
+					if nonEmptyTestOf(l, text) {
+						ok = true
+					}
+				}
+				c.Check(ok, construct, call.Pos(), "only for a non-empty text",
+					"the text is split and parsed without having been tested non-empty: the empty printed stack of a layer that captured no frames yields one all-empty frame / the location \".:0\" after a hop, while the sender reports no stack")
+			})
+		}
+		c.Min("callers of parsePrintedStackEntry", n, 2)
+	},
+}
+
+// nonEmptyTestOf: literal l establishes that the string value s (or the value it was trimmed from... no: s itself) is
+// non-empty: s != "" true, s == "" false, len(s) > 0 / != 0 true, len(s) == 0 false.
+func nonEmptyTestOf(l lit, s ssa.Value) bool {
+	bin, ok := l.V.(*ssa.BinOp)
+	if !ok {
+		return false
+	}
+	isLen := func(v ssa.Value) bool {
+		call, ok := v.(*ssa.Call)
+		if !ok {
+			return false
+		}
+		b, ok := call.Call.Value.(*ssa.Builtin)
+		return ok && b.Name() == "len" && call.Call.Args[0] == s
+	}
+	isEmptyStr := func(v ssa.Value) bool { k, ok := sx.ConstString(v); return ok && k == "" }
+	isZero := func(v ssa.Value) bool { k, ok := sx.ConstInt(v); return ok && k == 0 }
+	switch {
+	case (bin.X == s && isEmptyStr(bin.Y)) || (bin.Y == s && isEmptyStr(bin.X)):
+		return (bin.Op == token.NEQ && !l.Neg) || (bin.Op == token.EQL && l.Neg)
+	case isLen(bin.X) && isZero(bin.Y):
+		return ((bin.Op == token.GTR || bin.Op == token.NEQ) && !l.Neg) || ((bin.Op == token.EQL || bin.Op == token.LEQ) && l.Neg)
+	case isLen(bin.Y) && isZero(bin.X):
+		return ((bin.Op == token.LSS || bin.Op == token.NEQ) && !l.Neg) || ((bin.Op == token.EQL || bin.Op == token.GEQ) && l.Neg)
+	}
+	return false
+}
+
+// ---------------------------------------------------------------------------
+// R-FUNCNAME
+
+var rFuncName = &Rule{
+	Name: "R-FUNCNAME",
+	Doc: "withstack.functionName splits the runtime's function name into package and function without losing or misplacing anything: (1) the two results are name[:idx] and name[idx+1:] of the parameter ITSELF for one and the same idx (the split is a partition - nothing is cut off before or after), and (2) idx is not simply strings.LastIndex(name, \".\") of the whole name: the runtime prints the type arguments of instantiated generic functions as \"[...]\", so the last period of pkg.Map[...] lies inside the argument list (the function would be reported as \"]\")",
+	Run: func(c *core.Ctx) {
+		fn := c.P.Func("withstack", "functionName")
+		if fn == nil {
+			c.InternalErr("withstack.functionName", "anchor not found")
+			return
+		}
+		name := "withstack.functionName"
+		param := fn.Params[0]
+		// slices of the parameter
+		var lows, highs []ssa.Value
+		okSlices := true
+		sx.EachInstr(fn, func(in ssa.Instruction) {
+			sl, ok := in.(*ssa.Slice)
+			if !ok || !isStringType(sl.X.Type()) {
+				return
+			}
+			if sl.X != ssa.Value(param) {
+				okSlices = false
+				return
+			}
+			switch {
+			case sl.Low == nil && sl.High != nil:
+				highs = append(highs, sl.High)
+			case sl.Low != nil && sl.High == nil:
+				lows = append(lows, sl.Low)
+			default:
+				okSlices = false
+			}
+		})
+		part := okSlices && len(lows) == 1 && len(highs) == 1
+		var idx ssa.Value
+		if part {
+			idx = highs[0]
+			bin, ok := lows[0].(*ssa.BinOp)
+			k, isK := int64(0), false
+			if ok && bin.Op == token.ADD && bin.X == idx {
+				k, isK = sx.ConstInt(bin.Y)
+			}
+			part = isK && k == 1
+		}
+		c.Check(part, name+": partition", fn.Pos(), "package = name[:idx], function = name[idx+1:] of the parameter itself",
+			"the results are not the two sides of one split position of the full runtime name: a part of the name (e.g. everything from the first '[' on, which contains the method name of methods on generic types) is cut off")
+		if !part {
+			return
+		}
+		plain := false
+		if call, ok := idx.(*ssa.Call); ok {
+			if f := sx.Callee(call); f != nil && load.FnPkg(f) != nil && load.FnPkg(f).Path() == "strings" && strings.HasPrefix(f.Name(), "LastIndex") && len(call.Call.Args) == 2 && call.Call.Args[0] == ssa.Value(param) {
+				plain = true
+			}
+		}
+		c.Check(!plain, name+": split position", fn.Pos(), "not the plain last period of the whole name (type-argument lists are skipped)",
+			"the name is split at strings.LastIndex(name, \".\"): for an instantiated generic function (pkg.Map[...]) that period is inside the type-argument list, so the function is reported as \"]\" and the package as \"pkg.Map[..\"")
+	},
+}
+
+func isStringType(t types.Type) bool {
+	b, ok := types.Unalias(t).Underlying().(*types.Basic)
+	return ok && b.Info()&types.IsString != 0
+}
+
+// ---------------------------------------------------------------------------
+// R-REGISTRY-KEY
+
+var rRegistryKey = &Rule{
+	Name: "R-REGISTRY-KEY",
+	Doc: "the encoder/decoder registries are consulted under the key they are filled with: GetTypeKey(x), i.e. the (migrated) FAMILY name. Every lookup in a package-level map keyed by errbase.TypeKey inside errbase's encode/decode paths uses the FamilyName member of the type mark (result #2 of getTypeDetails on the sending side, Details.ErrorTypeMark.FamilyName on the receiving side) - never OriginalTypeName, which differs from the family name exactly for types renamed with RegisterTypeMigration (their registered encoder would be skipped and they would travel without payload)",
+	Run: func(c *core.Ctx) {
+		p := c.P
+		n := 0
+		for _, fn := range p.HandFuncs() {
+			pk := load.FnPkg(fn)
+			if pk == nil || !strings.HasSuffix(pk.Path(), "/errbase") {
+				continue
+			}
+			sx.EachInstr(fn, func(in ssa.Instruction) {
+				lk, ok := in.(*ssa.Lookup)
+				if !ok {
+					return
+				}
+				g := globalOfLoad(lk.X)
+				if g == nil {
+					return
+				}
+				mt, ok := types.Unalias(lk.X.Type()).Underlying().(*types.Map)
+				if !ok || !sx.IsNamed(mt.Key(), load.ModPath+"/errbase", "TypeKey") {
+					return
+				}
+				n++
+				construct := load.FnName(fn) + ": lookup in " + g.Name()
+				var verdict func(v ssa.Value, d int) string // "" ok, otherwise reason; "?" unknown
+				verdict = func(v ssa.Value, d int) string {
+					if d > 8 {
+						return "?"
+					}
+					switch x := v.(type) {
+					case *ssa.Convert:
+						return verdict(x.X, d+1)
+					case *ssa.ChangeType:
+						return verdict(x.X, d+1)
+					case *ssa.Parameter:
+						return ""
+					case *ssa.Phi:
+						for _, e := range x.Edges {
+							if r := verdict(e, d+1); r != "" {
+								return r
+							}
+						}
+						return ""
+					case *ssa.UnOp:
+						if x.Op != token.MUL {
+							return "?"
+						}
+						switch a := x.X.(type) {
+						case *ssa.FieldAddr:
+							switch fieldNameOf(a) {
+							case "FamilyName":
+								return ""
+							case "OriginalTypeName":
+								return "the key is built from OriginalTypeName"
+							}
+							return "?"
+						case *ssa.Alloc:
+							// a local: what was stored
+							for _, r := range *a.Referrers() {
+								if st, ok := r.(*ssa.Store); ok && st.Addr == ssa.Value(a) {
+									if rr := verdict(st.Val, d+1); rr != "" {
+										return rr
+									}
+								}
+							}
+							return ""
+						}
+						return "?"
+					case *ssa.Extract:
+						if call, ok := x.Tuple.(*ssa.Call); ok && sx.Callee(call) != nil && sx.Callee(call).Name() == "getTypeDetails" {
+							if x.Index == 1 {
+								return ""
+							}
+							if x.Index == 0 {
+								return "the key is the original type name returned by getTypeDetails"
+							}
+						}
+						return "?"
+					case *ssa.Call:
+						if f := sx.Callee(x); f != nil && (f.Name() == "GetTypeKey" || f.Name() == "getFullTypeName" || f.Name() == "makeTypeKey") {
+							return ""
+						}
+						return "?"
+					case *ssa.Const:
+						return ""
+					}
+					return "?"
+				}
+				r := verdict(lk.Index, 0)
+				switch r {
+				case "":
+					c.Ob(construct, lk.Pos(), true, "keyed by the family name / a registration key")
+				case "?":
+					c.Undecided(construct, lk.Pos(), "the provenance of the registry key ("+describeVal(lk.Index)+") is not recognised")
+				default:
+					c.Fail(construct, lk.Pos(), r+": registries are filled under GetTypeKey (the migrated family name); for a type renamed with RegisterTypeMigration the two names differ, its registered encoder/decoder is not found, and it travels without payload and safe details")
+				}
+			})
+		}
+		c.Min("registry lookups in errbase", n, 6)
+	},
+}
+
+// ---------------------------------------------------------------------------
+// R-STATE-FLAGS
+
+var rStateFlags = &Rule{
+	Name: "R-STATE-FLAGS",
+	Doc: "the formatting state reports the caller's flags: errbase.state embeds the fmt.State of the original Format call and is (a) handed as fmt.State to foreign Format methods and (b) the source from which finishDisplay rebuilds the verb (%q, %x, width, precision, flags) applied to the collected text. Its Flag / Width / Precision methods are therefore the promoted ones of the embedded fmt.State, or pure forwarders to them - an override that answers differently for some flag changes what %+q, %-20q, %#x … print relative to fmt's rendering of Error()",
+	Run: func(c *core.Ctx) {
+		p := c.P
+		st := p.Named("errbase", "state")
+		if st == nil {
+			c.InternalErr("errbase.state", "anchor type not found")
+			return
+		}
+		str, ok := st.Underlying().(*types.Struct)
+		embedsState := false
+		if ok {
+			for i := 0; i < str.NumFields(); i++ {
+				f := str.Field(i)
+				if f.Embedded() && sx.IsNamed(f.Type(), "fmt", "State") {
+					embedsState = true
+				}
+			}
+		}
+		c.Check(embedsState, "errbase.state: embedded fmt.State", token.NoPos, "the caller's fmt.State is embedded", "errbase.state no longer embeds the caller's fmt.State")
+		for _, m := range []string{"Flag", "Width", "Precision"} {
+			construct := "(*errbase.state)." + m
+			// declared on the type itself?
+			var declared *ssa.Function
+			for _, fn := range p.HandFuncs() {
+				if fn.Name() == m && fn.Signature.Recv() != nil && sx.NamedOf(fn.Signature.Recv().Type()) == st && fn.Synthetic == "" {
+					declared = fn
+				}
+			}
+			if declared == nil {
+				c.Ob(construct, token.NoPos, true, "promoted from the embedded fmt.State")
+				continue
+			}
+			// pure forwarder: every return is the invoke of the same method on the embedded State with the own arguments
+			pure := true
+			for _, ret := range sx.Returns(declared) {
+				for _, r := range ret.Results {
+					v := r
+					if ex, ok := v.(*ssa.Extract); ok {
+						v = ex.Tuple
+					}
+					call, ok := v.(*ssa.Call)
+					if !ok || !call.Call.IsInvoke() || call.Call.Method.Name() != m {
+						pure = false
+						continue
+					}
+					ld, ok := call.Call.Value.(*ssa.UnOp)
+					if !ok {
+						pure = false
+						continue
+					}
+					fa, ok := ld.X.(*ssa.FieldAddr)
+					if !ok || fa.X != ssa.Value(declared.Params[0]) || fieldNameOf(fa) != "State" {
+						pure = false
+					}
+					for i, a := range call.Call.Args {
+						if i+1 >= len(declared.Params) || a != ssa.Value(declared.Params[i+1]) {
+							pure = false
+						}
+					}
+				}
+			}
+			c.Check(pure, construct, declared.Pos(), "a pure forwarder to the embedded fmt.State",
+				"the formatting state overrides "+m+" and does not simply forward to the caller's fmt.State: the flags seen by foreign Format methods and by the final verb application (redact.MakeFormat in finishDisplay) differ from those of the original call, so flag variants of %q/%x/%s no longer print what fmt prints for Error()")
+		}
+	},
 }
